@@ -12,3 +12,7 @@ pub fn update_waker_ref(waker_option: &mut Option<Waker>, cx: &Context) {
         *waker_option = Some(cx.waker().clone());
     }
 }
+
+#[cfg(kani)]
+#[path = "/verif/kani/utils.rs"]
+mod kani_verif;
